@@ -61,12 +61,39 @@ def match_arms(fi: FuncInfo, ename: str) -> Tuple[Dict[str, ast.match_case], Opt
                         d = dotted(p.value) or ""
                         if d.startswith(ename + "."):
                             arms[d.split(".", 1)[1]] = c
-    # if/elif chains `if self is Enum.Member`
+    # if/elif chains and guard clauses: `if self is Enum.Member` / `if self in (Enum.A, Enum.B)`
     for n in walk_no_nested(fi.node):
-        if isinstance(n, ast.If) and isinstance(n.test, ast.Compare) and src(n.test.left) == "self" and isinstance(n.test.ops[0], (ast.Is, ast.Eq)):
-            d = dotted(n.test.comparators[0]) or ""
-            if d.startswith(ename + "."):
-                arms.setdefault(d.split(".", 1)[1], n)
+        if isinstance(n, ast.If) and isinstance(n.test, ast.Compare) and src(n.test.left) == "self" and len(n.test.ops) == 1:
+            c = n.test.comparators[0]
+            if isinstance(n.test.ops[0], (ast.Is, ast.Eq)):
+                d = dotted(c) or ""
+                if d.startswith(ename + "."):
+                    arms.setdefault(d.split(".", 1)[1], n)
+            elif isinstance(n.test.ops[0], ast.In) and isinstance(c, (ast.Tuple, ast.List, ast.Set)):
+                for e in c.elts:
+                    d = dotted(e) or ""
+                    if d.startswith(ename + "."):
+                        arms.setdefault(d.split(".", 1)[1], n)
+    # dictionary dispatch: a module-level {Enum.Member: lambda params: …} table read by this function
+    if not arms:
+        used = {x.id for x in ast.walk(fi.node) if isinstance(x, ast.Name)}
+        for st in fi.module.tree.body:
+            tgt = st.targets[0] if isinstance(st, ast.Assign) and len(st.targets) == 1 else (st.target if isinstance(st, ast.AnnAssign) else None)
+            val = getattr(st, "value", None)
+            if isinstance(tgt, ast.Name) and tgt.id in used and isinstance(val, ast.Dict):
+                for k, v in zip(val.keys, val.values):
+                    d = dotted(k) or ""
+                    if d.startswith(ename + ".") and isinstance(v, ast.Lambda) and len(v.args.args) == 1:
+                        pname = v.args.args[0].arg
+
+                        class _R(ast.NodeTransformer):
+                            def visit_Name(self, nn):
+                                return ast.copy_location(ast.Name(id="kwargs", ctx=nn.ctx), nn) if nn.id == pname else nn
+                        import copy as _copy
+                        body = _R().visit(_copy.deepcopy(v.body))
+                        arm = ast.If(test=ast.Constant(value=True), body=[ast.copy_location(ast.Return(value=body), v)], orelse=[])
+                        ast.copy_location(arm, v)
+                        arms[d.split(".", 1)[1]] = arm
     return arms, m
 
 
@@ -90,9 +117,13 @@ def dispatch(repo: Repo) -> List[Ob]:
         missing, extra = sorted(set(members) - set(arms)), sorted(set(arms) - set(members))
         (obs.append(ok("DISPATCH", co, "arms-cover-members", P, co.node, f"{len(members)} members, one arm each")) if not missing and not extra else
          obs.append(bad("DISPATCH", co, "arms-cover-members", P, co.node, f"operator dispatch of {ename}: members without an arm {missing}, arms naming no member {extra}")))
-        # fall-through raises
+        # fall-through raises: no path leaves the function without `return <value>`, and a raise is reachable
+        from ..cfg import CFG
+        cfgd = CFG(co.node)
+        implicit = [pn for pn, _ in cfgd.pred[cfgd.exit] if not (pn.kind == "return" and pn.ast.value is not None)]
+        has_raise = cfgd.exc in cfgd.reachable([cfgd.entry]) and any(nn.kind == "raise" for nn in cfgd.nodes)
         last = co.node.body[-1]
-        (obs.append(ok("DISPATCH", co, "fallthrough-raises", P, last, "an unmatched member raises")) if isinstance(last, ast.Raise) else
+        (obs.append(ok("DISPATCH", co, "fallthrough-raises", P, last, "an unmatched member raises")) if not implicit and has_raise else
          obs.append(bad("DISPATCH", co, "fallthrough-raises", P, last, "an unmatched operation type falls through without an error")))
         darms, dm = match_arms(cd, ename)
         if darms:
